@@ -198,6 +198,25 @@ theorem equations_as_modelled :
     TSSVerif.Gen.Ps.proveKnowledge = TSSVerif.Model.PsEq.proveKnowledge ∧ TSSVerif.Gen.Ps.proverUnBlind = TSSVerif.Model.PsEq.proverUnBlind := by
   decide +kernel
 
+/-! ### the evaluation points of the shares and of the coefficients must be the same (defect F31)
+
+`witnesses_aggregate` uses one map `v` from signers to evaluation points, both for the point at which a signer's share
+was evaluated and for the Lagrange coefficient. Until fix F31 the code used two: the key generation evaluates at the
+party's position + 1, `Prover.ProveKnowledgeOfSignature` computed the coefficients from the party *identifiers*. The
+witness below is the smallest instance of what then goes wrong (parties `[2, 3]`: positions 1, 2; polynomial `X`). -/
+
+theorem univ_erase_zero : (Finset.univ : Finset (Fin 2)).erase 0 = {1} := by decide
+theorem univ_erase_one : (Finset.univ : Finset (Fin 2)).erase 1 = {0} := by decide
+
+open TSSVerif.Props.C18 in
+/-- coefficients for the points 2, 3 applied to shares taken at the points 1, 2 do not reconstruct the secret -/
+theorem mismatched_points_witness :
+    ∑ k ∈ (Finset.univ : Finset (Fin 2)), (X : ℚ[X]).eval (![1, 2] k) * lam Finset.univ ![(2 : ℚ), 3] k
+      ≠ (X : ℚ[X]).eval 0 := by
+  rw [Fin.sum_univ_two]
+  simp only [lam, univ_erase_zero, univ_erase_one, Finset.prod_singleton, eval_X]
+  norm_num
+
 /-- **The key generation this property's flows start from is the one modelled** (`Model/Dkg`, shared with C01/C05): the
 statements of the PS backend's `OnMsg`, `KeyGen`, its three wait loops and its commit / reveal / validation functions,
 regenerated from `/repo` on this run, are the committed ones. (The property quantifies over DKG delivery schedules: a
